@@ -59,4 +59,16 @@ CLAIMS = {
         'not_decided': 'equivalence with the manifest that has the information written in; schedule-dependent '
                        're-want logic in RefreshDyndepDependents.',
     },
+    'C17': {
+        'design': '5.17',
+        'technique': 'who-may-write colouring protocol + dominance/must-pass-through order + provenance + skip-exactness over clang CFG facts',
+        'decides': 'who writes which DFS colour; in the scan the VisitDone early exit and a successful VerifyDAG '
+                   'precede mark_ = VisitInStack, which dominates every descent, and every success return passes '
+                   'VisitDone and pop_back; VerifyDAG rejects exactly under mark_ == VisitInStack and always with '
+                   'a message; validation nodes are queued and never recursed into, AllInputsReady ignores them, '
+                   'the driver clears the stack per queued node; after a dyndep load the re-scanned nodes are '
+                   'exactly those un-marked beforehand and an in-plan dependent is never left marked; a failed '
+                   'scan / VerifyDAG never becomes a success return (graph.cc, AddTarget, dyndep re-plan).',
+        'not_decided': 'that the printed cycle is an actual cycle of the graph; completeness across dyndep re-scans.',
+    },
 }
